@@ -100,6 +100,15 @@ def step (h : Heap) (line : String) : Heap × String :=
     let gcToks := toks.dropWhile (fun t => !isGcTok t)
     let h1 := replay h allocToks
     let h2 := replay h1 gcToks
+    -- state after marking, before the sweep: where the hypothesis `Cov` of gc_safe is evaluated
+    let hm := replay h1 (gcToks.filter (fun t => !t.startsWith "W"))
+    let reach := natList (field ws "reach")
+    let uncovered := if !hm.unmarked.isEmpty || !(gcToks.any (·.startsWith "W")) then [] else
+      reach.filter fun id =>
+        match hm.slots[id]? with
+        | some (.perm _) => false
+        | some (.temp _ true) => false
+        | _ => true
     let (t, u, d) := stat h2
     let verdict :=
       if gcToks.isEmpty then "none"
@@ -121,7 +130,14 @@ def step (h : Heap) (line : String) : Heap × String :=
           -- needs every popped id that carries marks to be a module
           let g := gcStep h1 all changed numModuleMarkedPerSlice numSweepUnit choices
           if g = h2 then "ok" else "GCSTEP-MISMATCH"
-    (h2, s!"stat={t},{u},{d} gc={verdict}")
+    let cov := if uncovered.isEmpty then "ok" else
+      "UNCOVERED:" ++ ",".intercalate (uncovered.take 5 |>.map fun id =>
+        toString id ++ "=" ++ (match hm.slots[id]? with
+          | some (.temp s _) => hexOfBytes s
+          | some .dead => "dead"
+          | some (.perm s) => hexOfBytes s
+          | none => "out-of-range"))
+    (h2, s!"stat={t},{u},{d} gc={verdict} cov={cov} reach={reach.length}")
   | _ => (h, "bad-op")
 
 def run : IO Unit := runLoop init step
